@@ -15,10 +15,12 @@ git apply $src/seed/patch.diff || { echo "PATCH DOES NOT APPLY"; exit 3; }
 suite=$(cargo test --workspace --offline 2>&1 | grep -E "^test result" | awk '{p+=$4; f+=$6} END {print p" passed "f" failed"}')
 echo "suite with change: $suite"
 mkdir -p seed && cp -r $src/seed/demo_crate seed/
-with=$(cd seed/demo_crate && CARGO_TARGET_DIR=$wt/target-demo cargo test --offline 2>&1 | grep -E "^test result" | tail -1)
+(cd seed/demo_crate && CARGO_TARGET_DIR=$wt/target-demo cargo test --offline > /tmp/sv-$name.with.log 2>&1); wrc=$?
+with="exit=$wrc $(grep -E '^test result|^error(\[E[0-9]+\])?:' /tmp/sv-$name.with.log | tail -1 | cut -c1-120)"
 echo "demo crate WITH change: $with"
 git checkout -q -- epserde/src epserde-derive/src
-without=$(cd seed/demo_crate && CARGO_TARGET_DIR=$wt/target-demo cargo test --offline 2>&1 | grep -E "^test result" | tail -1)
+(cd seed/demo_crate && CARGO_TARGET_DIR=$wt/target-demo cargo test --offline > /tmp/sv-$name.without.log 2>&1); worc=$?
+without="exit=$worc $(grep -E '^test result' /tmp/sv-$name.without.log | tail -1)"; rm -f /tmp/sv-$name.with.log /tmp/sv-$name.without.log
 echo "demo crate WITHOUT change: $without"
 git apply $src/seed/patch.diff
 cp $src/seed/patch.diff $out/; cp $src/seed/demo.rs $out/ 2>/dev/null; rm -rf $out/demo_crate; cp -r $src/seed/demo_crate $out/demo_crate; rm -rf $out/demo_crate/target
